@@ -9,7 +9,12 @@ Two halves:
   checks/c09_cal.py (agent calfile), theorems in coq/Properties_C09cal.v.
 """
 import c09_data
+import c09_mem
 import tstone_ties
+
+# the pointer-level models of the parsers' own buffers (session 5, package B) and their proofs
+COQ_FILES_MEM = ["Mem/Alloc.v", "Mem/AllocProofs.v", "Files/TsMem.v", "Files/TsMemProofs.v", "Files/TsMemNpd.v",
+                 "Files/TsMemNpdProofs.v"]
 
 
 def run(ctx):
@@ -23,18 +28,27 @@ def run(ctx):
         "code on every input of the run: harness/tstone_tok.c (#includes the two loader sources to reach the static scanners), "
         "harness/datafiles_harness.c (vnadata_fload); lib/tstone.py does the comparison (exact where the C code does no "
         "arithmetic, else 1e-12 / 1e-11 relative)",
-        "network-data half: memory safety other than the scanner's text buffer, leaks, the destination object after a failure and "
-        "save/re-load of a loaded object are not modelled: mutation harness checks/c09_data.py under ASan/UBSan/LSan with the "
-        "allocation interposer harness/allocwrap.c and a 5 s watchdog per library call",
+        "network-data half: hand-written pointer-level models coq/Files/TsMem.v / TsMemNpd.v of the parsers' own buffers in the "
+        "checked-memory monad coq/Mem/Alloc.v, extracted (ocaml/Extract_tsmem.v, glue ocaml/drv_tsmem.ml) and compared on every "
+        "run with the C code compiled with its malloc / calloc / realloc / free renamed to a counting, failing, block-moving "
+        "ledger (harness/tstone_mem.c, tstone_mem_npd.c; checks/c09_mem.py): outcome, number of requests, sizes of the blocks "
+        "freed at out:, blocks left, for every failing request",
+        "network-data half: the destination object after a failure and save/re-load of a loaded object are not modelled "
+        "(harness only: checks/c09_data.py under ASan/UBSan/LSan with the allocation interposer harness/allocwrap.c and a 5 s "
+        "watchdog per library call; harness/tstone_mem.c reads every cell of the destination back after every run)",
         "gcc, ASan/UBSan/LSan",
     ]
     ctx.assumptions = ["inputs declaring more than 40 ports or 5000 frequencies are not executed (allocation size), "
                        "except the directed overflow cases",
-                       "allocation failure (ENOMEM) inside the network-data loaders is not modelled (C12 covers allocation faults)"]
+                       "allocation failure of the parsers' own requests is modelled and tied (fail_at of the memory monad); "
+                       "failures of the requests of other modules reached from the loaders (vnadata_init, _vnadata_error, "
+                       "vnadata_set_format ...) are not (C12 covers allocation faults of the API)"]
     ctx.rule = ("one evaluation = one input file loaded into a fresh and into a used object, dumped, re-saved and re-loaded; "
                 "distinct non-trivial = inputs for which every clause held")
-    ok, res = ctx.coq_obligations(tstone_ties.COQ_FILES_C09)
+    files = [f for f in tstone_ties.COQ_FILES_C09 if f != "Properties_C09.v"] + COQ_FILES_MEM + ["Properties_C09.v"]
+    ok, res = ctx.coq_obligations(files)
     inputs = c09_data.run(ctx)
+    c09_mem.run(ctx, inputs)
     if not ok:
         ctx.unproved("C09 (network data)", "Coq development of C09 does not build: " + getattr(ctx, "_last_coq_log", "")[-400:],
                      "%d mutated / truncated / random / directed inputs through vnadata_fload and the extracted models" % len(inputs))
